@@ -2,6 +2,6 @@
 import EinoV.Model.C16
 namespace EinoV.Expected.C16
 def facts : EinoV.C16.Facts :=
-  { typeCmpIdentity := true, strip := 1, passSubPathIsError := true, nestedCopies := true,
+  { typeCmpIdentity := true, typeCmpImplements := false, strip := 1, passSubPathIsError := true, nestedCopies := true,
     designateCopies := true }
 end EinoV.Expected.C16
